@@ -5,3 +5,6 @@ Check Props.C14.C14_answer_after_termination_is_for_ever :
   forall tr s1 s2 a x c h k isrunning b s3,
   actors s1 a = Some x -> a_notif x <> NArmed -> run s1 tr = Acc s2 ->
   handles s2 h = Some (a, k) -> step s2 (EvQuery c h isrunning b) = Acc s3 -> b = negb isrunning.
+Check Props.C14.C14_answer_flips_only_when_the_task_ends :
+  forall s e s' a x x', step s e = Acc s' -> actors s a = Some x -> actors s' a = Some x' ->
+  a_notif x' <> a_notif x -> exists how, e = EvTaskEnd a how.
